@@ -37,7 +37,7 @@ func streamSources(tier string, seed int64, nGenQuick, nGenThorough int) []Sourc
 	if tier == "thorough" {
 		n = nGenThorough
 	}
-	opts := []string{"", "refs", "deps", "unicode", "deps,refs", "clean", "hooks,deps", "wide"}
+	opts := []string{"", "refs", "deps", "unicode", "deps,refs", "clean", "hooks,deps", "wide", "mods,deps", "shapes,refs", "mods", "shapes,deps"}
 	for i := 0; i < n; i++ {
 		out = append(out, Source{Recipe{Kind: "gen", Seed: seed*100000 + int64(i), Opt: opts[i%len(opts)]}})
 	}
